@@ -9,7 +9,7 @@ import (
 // Inode-table exhaustion (C09: "nearly-exhausted inode tables"; C15: every inode number but the two reserved ones is
 // usable). The reference model with 32 766 live objects is far too large for TLC, so this scenario has its own small
 // specification (spec/ExhaustTrace.tla) over counts: the table is filled, requests that need an inode must fail and
-// leave nothing behind (free counts equal and the decoded logical disk + caches + allocators byte-identical, compared
+// leave nothing behind (free counts equal and the decoded logical disk + allocators byte-identical, compared
 // here and reported as one boolean), one number is given back and must be usable again, and a restart must see the
 // same counts.
 
@@ -50,13 +50,20 @@ func RunExhaust(seed int, t *Trace, seg int) int {
 	fb, fi := s.Free()
 	st := s.N.VerifState()
 	t.Emit(map[string]interface{}{"ev": "exhfill", "created": n + 1, "ninode": int(st.Super.NInode()), "freei": fi, "freeb": fb, "last": last})
+	// what a failed request must leave as it was: the logical disk and the allocators (FsStruct's Frame). Which inodes are
+	// cached is not part of it: a lookup fills the cache, an abort may drop what it touched.
+	frame := func() string {
+		sn := TakeSnap(s, "run", true)
+		sn.Icache = nil
+		return hashOf(sn)
+	}
 	fail := func(proc, dir, name string) {
 		b0, i0 := s.Free()
-		h0 := hashOf(TakeSnap(s, "run", true))
+		h0 := frame()
 		c := mkc(proc, dir, name)
 		s.WaitIdle()
 		b1, i1 := s.Free()
-		h1 := hashOf(TakeSnap(s, "run", true))
+		h1 := frame()
 		t.Emit(map[string]interface{}{"ev": "exhfail", "proc": proc, "st": c.St, "code": c.Code, "same": h0 == h1,
 			"freei0": i0, "freei1": i1, "freeb0": b0, "freeb1": b1})
 	}
